@@ -83,6 +83,37 @@ theorem src_interpolateAt (hull : List Pt) (i : Nat) (g : Rat) :
                        p0 := (b.x - g) / (b.x - a.x), op0 := a.op, p1 := 1 - (b.x - g) / (b.x - a.x), op1 := b.op }
          | _, _ => none) := rfl
 
+/-! ### the glue of `ThresholdOptimizer.fit` (`Generated/ThresholdFitSrc.lean`) -/
+
+/-- the grid is `np.linspace(0, 1, N + 1)`: its `i`-th entry is `i / N` -/
+theorem src_gridVal (N i : Nat) : gridVal N i = (i : Rat) / (N : Rat) := by
+  simp [gridVal, ThresholdFitSrc.gridLo, ThresholdFitSrc.gridHi, ThresholdFitSrc.gridExtra]
+
+theorem foldl_add_eq_sum {α} (f : α → Rat) (l : List α) (a : Rat) :
+    l.foldl (fun acc x => acc + f x) a = a + (l.map f).sum := by
+  induction l generalizing a with
+  | nil => simp
+  | cons x xs ih => simp only [List.foldl_cons, List.map_cons, List.sum_cons]; rw [ih]; ring
+
+/-- the overall curve is the frequency-weighted sum (`len(group) / n`) of the groups' interpolated objectives -/
+theorem src_objSimple (groups : List (List Row)) (is : List Interp) :
+    objSimple groups is =
+      (List.zipWith (fun (g : List Row) (r : Interp) => ((g.length : Rat) / (totalRows groups : Rat)) * r.y) groups is).sum := by
+  unfold objSimple
+  have h : (fun (acc : Rat) (py : Rat × Rat) => ThresholdFitSrc.objAccum acc py.1 py.2) =
+      (fun acc py => acc + (fun (py : Rat × Rat) => py.1 * py.2) py) := rfl
+  rw [h, foldl_add_eq_sum]
+  simp [ThresholdFitSrc.objInit, ThresholdFitSrc.groupFreq, List.map_zipWith]
+
+/-- `p_ignore = 0` on the ROC diagonal, otherwise `(y - y_best) / (y - x)` -/
+theorem src_pIgnore (r : Interp) (yBest : Rat) :
+    pIgnore r yBest = if r.y = r.x then 0 else (r.y - yBest) / (r.y - r.x) := by
+  simp [pIgnore, ThresholdFitSrc.pIgnoreOnDiagonal, ThresholdFitSrc.pIgnoreDiagValue, ThresholdFitSrc.pIgnoreValue]
+
+/-- the best grid index is `idxmax` (first maximum, `argmaxFirst`); `n_negative = n - n_positive` -/
+theorem src_fit_misc (n npos : Rat) :
+    ThresholdFitSrc.bestIsIdxmax = true ∧ ThresholdFitSrc.eoNNeg n npos = n - npos := ⟨rfl, rfl⟩
+
 /-! ### the predict path (`Generated/ThresholderSrc.lean`) -/
 
 /-- operator ">" is `score > threshold`, operator "<" is `score < threshold` (strict, threshold on the right) -/
